@@ -8,6 +8,7 @@
 package main
 
 import (
+	"strings"
 	"context"
 	"fmt"
 	"math/rand/v2"
@@ -122,6 +123,11 @@ func runHistory(run *evid.Run, rng *rand.Rand, h int, immutable, large bool, nOp
 	arng := run.Rand(77, uint64(h))
 	afterlife := func(hd int) {
 		if hd < 0 || hd >= len(env.Writers) || env.Writers[hd] == nil {
+			return
+		}
+		if hd < len(env.IDs) && (strings.HasPrefix(env.IDs[hd], "unknown-id-") || env.IDs[hd] == "") {
+			// a session opened under a literal identifier: the history may name that identifier again, and
+			// the model would not know what was written here in between
 			return
 		}
 		w := env.Writers[hd]
